@@ -140,7 +140,7 @@ class Runner:
         s.fmt, s.gid, s.kind, s.content_kind = op["fmt"], self.gid(op["h"]), self.kinds[op["h"]], self.contents[op["h"]]
         s.snap = self.snap(s.gid)
         s.valid = self.validates(s.gid)
-        s.api = api_view(t, s.kind)
+        s.api = api_view(t, s.kind) if s.content_kind == "topo" else None      # raw graphs are not API-built models
         try:
             if op["via"] == "file":
                 self.im.nfile += 1
